@@ -201,14 +201,25 @@ class FeatureStructure:
         subsumes : bool
             Whether the current feature structure subsumes the one.
         """
+        return self._subsumes(other, {})
+
+    def _subsumes(self, other: "FeatureStructure", mapping):
+        """ mapping: the nodes of the current structure already visited and
+        the node of the other structure each of them corresponds to. Two
+        paths that share their value in the current structure have to share
+        it in the other structure too. """
         current_dereferenced = self.get_dereferenced()
         other_dereferenced = other.get_dereferenced()
+        if id(current_dereferenced) in mapping:
+            return mapping[id(current_dereferenced)] is other_dereferenced
+        mapping[id(current_dereferenced)] = other_dereferenced
         if current_dereferenced.value != other_dereferenced.value:
             return False
         for feature in current_dereferenced.content:
             if feature not in other_dereferenced.content:
                 return False
-            if not current_dereferenced.content[feature].subsumes(other_dereferenced.content[feature]):
+            if not current_dereferenced.content[feature]._subsumes(  # pylint: disable=protected-access
+                    other_dereferenced.content[feature], mapping):
                 return False
         return True
 
